@@ -1283,7 +1283,9 @@ fn append_to_commitlog(
         }
     }
 
-    if publish.payload.is_empty() {
+    // only a retained publish touches the retained message of its topic:
+    // an empty payload clears it, any other payload replaces it
+    if publish.retain && publish.payload.is_empty() {
         datalog.remove_from_retained_publishes(topic.to_owned());
     } else if publish.retain {
         datalog.insert_to_retained_publishes(publish.clone(), properties.clone(), topic.to_owned());
@@ -1354,7 +1356,9 @@ fn append_will_message(
         }
     }
 
-    if publish.payload.is_empty() {
+    // only a retained publish touches the retained message of its topic:
+    // an empty payload clears it, any other payload replaces it
+    if publish.retain && publish.payload.is_empty() {
         datalog.remove_from_retained_publishes(topic.to_owned());
     } else if publish.retain {
         datalog.insert_to_retained_publishes(publish.clone(), properties.clone(), topic.to_owned());
